@@ -7,6 +7,8 @@ From Servitor Require Import Base Jtp Request.
 From Servitor.Facts Require Import RequestFacts.
 From Servitor Require Import Mime Json Object Webfinger.
 From Servitor.Facts Require Import WebfingerFacts.
+From Servitor Require Import Open.
+From Servitor.Facts Require Import OpenFacts.
 
 (* what is written parses as exactly one request with exactly these fields (components of a parsed URL contain no CR/LF: net/url rejects control characters) *)
 Theorem request_shape :
@@ -147,3 +149,14 @@ Theorem wf_first_request :
   r = mk_url dom (wf_uri acct dom).
 Proof. exact wf_first_request_fact. Qed.
 Print Assumptions wf_first_request.
+
+(* everything requested for a piece of typed input is https and needs a successful dial *)
+Theorem fetch_user_input_requests :
+  forall (W : url -> entry) (is_https : url -> bool) (resolve : url -> bytes -> option url)
+  (cap : nat) (parse_ref : option url -> text -> option url)
+  (url_parse : text -> option url) (host_of : url -> text) (mk_url : bytes -> bytes -> url)
+  (c : cache) (typed : bytes),
+  Forall (fun r : url => is_https r = true /\ e_dial (W r) = true)
+  (snd (fetch_user_input W is_https resolve cap parse_ref url_parse host_of mk_url c typed)).
+Proof. exact fetch_user_input_requests_fact. Qed.
+Print Assumptions fetch_user_input_requests.
